@@ -3,9 +3,9 @@ package main
 // C19 — zmodem hands the terminal back: life-cycle flag discipline.
 
 import (
-	"strings"
 	"fmt"
 	"go/token"
+	"strings"
 
 	"golang.org/x/tools/go/ssa"
 )
@@ -498,7 +498,10 @@ func c19Bridge(c *Ctx) {
 		c.bad("handleServerOutput/remote->helper", c.pos(so.Pos()), "the one place that hands remote output to the helper was not found")
 	}
 	// (h) without a helper the session ends only on cancel / cannot-open
-	noReason := []assumption{{pred: func(v ssa.Value) bool { call, _ := callOf(v); return call != nil && calleeID(&call.Call) == "bytes.Contains" }, val: false}}
+	noReason := []assumption{{pred: func(v ssa.Value) bool {
+		call, _ := callOf(v)
+		return call != nil && calleeID(&call.Call) == "bytes.Contains"
+	}, val: false}}
 	reach := blocksUnder(so, noReason)
 	endsSilently := false
 	for _, ci := range callsIn(so, anyID) {
